@@ -10,7 +10,7 @@ RULE = ("random sequences (length 3..8) of public API calls that SHARE their arg
         "burst-feature functions, find_extrema / find_zerox, compute_features_2d / 3d (shared dict, per-row lists, aliased lists, axis 0 / None / (0,1)), recompute_edges, "
         "limit_df, epoch_df, drop_samples_df, the plotting functions, and calls that RAISE part-way (a filter longer than the signal, both centrings); after every call a deep snapshot of every shared object is compared with the one taken before (arrays "
         "bytewise and their writeable flag, dicts recursively, tables with DataFrame.equals), and every call is repeated at the end of the sequence and must return an "
-        "identical result; distinct = distinct call sequences; non-trivial = the sequence contains at least two calls sharing an option dictionary or a table")
+        "identical result; two calls per sequence are also compared with the same call executed in a PRISTINE process (forked from a server that imported bycycle and never called it: no module-level state of the session can agree with it by accident); distinct = distinct call sequences; non-trivial = the sequence contains at least two calls sharing an option dictionary or a table")
 ASSUMPTIONS = ["deep snapshots use pickle round-trips of the argument objects; object identity of nested containers is not part of the statement",
                "plot functions are run under the Agg backend and figures closed after each call"]
 BATCH = 12
@@ -21,7 +21,9 @@ def regen_slots():
 
 OPS = ['cf_cycles', 'cf_amp', 'cf_cycles_trough', 'cf_amp_trough', 'shape', 'shape_trough', 'cyclepoints', 'burstfeat_cycles', 'burstfeat_amp', 'ampfrac', 'ampcons', 'percons', 'mono',
        'extrema', 'zerox', 'cf2d_dict', 'cf2d_list', 'cf2d_alias', 'cf2d_none_axis', 'cf3d', 'edges', 'limit', 'limit_all', 'epoch', 'drop', 'plot_summary', 'plot_cyclepoints', 'plot_param',
-       'cf2d_amp_list', 'cf_trough_raises', 'shape_trough_raises', 'cf_amp_raises']
+       'cf2d_amp_list', 'cf_trough_raises', 'shape_trough_raises', 'cf_amp_raises',
+       'shape_trough_sub', 'cf_trough_sub', 'cyclepoints_sub', 'mono_sub', 'shape_trough_series',
+       'extrema_nsec_a', 'extrema_nsec_b', 'cf_nsec_a', 'cf_nsec_b', 'cf_ncyc5', 'user_refill', 'user_refill']
 
 class World:
     """the shared argument objects of one session"""
@@ -40,11 +42,17 @@ class World:
         self.bk_min6 = {'min_n_cycles': 6}
         self.opt_list_amp = [{'burst_method': 'amp', 'burst_kwargs': self.bk_min6, 'threshold_kwargs': self.th_a},
                              {'burst_method': 'amp', 'burst_kwargs': self.bk_min6, 'threshold_kwargs': self.th_a}]
+        self.sig_sub = implutil.present(self.sig, 'subclass')      # an ndarray subclass: np.asarray(sig_sub) is a new object on the same memory
+        self.sig_series = pd.Series(self.sig.copy())
         self.sigs2 = np.array([self.sig[:500], self.sig[500:]])
         self.sigs3 = np.array([[self.sig[:500], self.sig[500:]]])
         self.df = implutil.quiet(compute_features, self.sig.copy(), self.fs, self.fr, threshold_kwargs=dict(self.th_c))
         self.df_t = implutil.quiet(compute_features, self.sig.copy(), self.fs, self.fr, center_extrema='trough', threshold_kwargs=dict(self.th_c))
-        self.shared = ['sig', 'th_c', 'th_a', 'bk', 'bk_min', 'fek', 'opts', 'opt_list', 'sigs2', 'sigs3', 'df', 'df_t', 'bk_min6', 'opt_list_amp']
+        # the tables of the REFILLED buffer (the samples reversed) are prepared now, so that a refill later involves no library call
+        rev = np.ascontiguousarray(self.sig[::-1])
+        self._alt = (implutil.quiet(compute_features, rev.copy(), self.fs, self.fr, threshold_kwargs=dict(self.th_c)),
+                     implutil.quiet(compute_features, rev.copy(), self.fs, self.fr, center_extrema='trough', threshold_kwargs=dict(self.th_c)))
+        self.shared = ['sig', 'th_c', 'th_a', 'bk', 'bk_min', 'fek', 'opts', 'opt_list', 'sigs2', 'sigs3', 'df', 'df_t', 'bk_min6', 'opt_list_amp', 'sig_sub', 'sig_series']
     def snapshot(self):
         out = {}
         for k in self.shared:
@@ -100,6 +108,19 @@ def _call(w, op):
         if op == 'cf_trough_raises': return q(compute_features, w.sig[:100], w.fs, w.fr, center_extrema='trough', threshold_kwargs=w.th_c)      # a view of the shared array, too short for the filter
         if op == 'shape_trough_raises': return q(compute_shape_features, w.sig, w.fs, w.fr, center_extrema='trough', find_extrema_kwargs=w.fek, n_cycles=100)   # the band-amplitude filter is longer than the signal
         if op == 'cf_amp_raises': return q(compute_features, w.sig[:20], w.fs, w.fr, center_extrema='trough', burst_method='amp', burst_kwargs=w.bk_min6, threshold_kwargs=w.th_a)
+        if op == 'shape_trough_sub': return q(compute_shape_features, w.sig_sub, w.fs, w.fr, center_extrema='trough', find_extrema_kwargs=w.fek)
+        if op == 'cf_trough_sub': return q(compute_features, w.sig_sub, w.fs, w.fr, center_extrema='trough', threshold_kwargs=w.th_c)
+        if op == 'cyclepoints_sub': return q(compute_cyclepoints, w.sig_sub, w.fs, w.fr, **w.fek)
+        if op == 'mono_sub': return q(compute_monotonicity, w.df_t, w.sig_sub)
+        if op == 'shape_trough_series': return q(compute_shape_features, w.sig_series, w.fs, w.fr, center_extrema='trough', find_extrema_kwargs=w.fek)
+        if op == 'extrema_nsec_a': return q(find_extrema, w.sig, w.fs, w.fr, filter_kwargs={'n_seconds': 0.3})
+        if op == 'extrema_nsec_b': return q(find_extrema, w.sig, w.fs, w.fr, filter_kwargs={'n_seconds': 0.6})
+        if op == 'cf_nsec_a': return q(compute_features, w.sig, w.fs, w.fr, threshold_kwargs=w.th_c, find_extrema_kwargs={'filter_kwargs': {'n_seconds': 0.3}})
+        if op == 'cf_nsec_b': return q(compute_features, w.sig, w.fs, w.fr, threshold_kwargs=w.th_c, find_extrema_kwargs={'filter_kwargs': {'n_seconds': 0.6}})
+        if op == 'cf_ncyc5': return q(compute_features, w.sig, w.fs, w.fr, center_extrema='trough', threshold_kwargs=w.th_c, find_extrema_kwargs={'filter_kwargs': {'n_cycles': 5}})
+        if op == 'user_refill':      # the CALLER refills its own signal buffer in place (an acquisition buffer): no library call is involved
+            _refill(w)
+            return 'refilled'
         if op == 'cf3d': return q(compute_features_3d, w.sigs3, w.fs, w.fr, compute_features_kwargs=w.opts, axis=(0, 1), n_jobs=1)
         if op == 'edges': return q(recompute_edges, w.df, w.th_c)
         if op == 'limit': return q(limit_df, w.df_t, w.fs, start=0.5, stop=3.0)
@@ -125,6 +146,19 @@ def _bk_full(self):
     return self.bk_full
 World._bk_full = _bk_full
 
+def _refill(w):
+    w.sig[:] = np.ascontiguousarray(w.sig[::-1]); w.sigs2[:] = np.array([w.sig[:500], w.sig[500:]]); w.sigs3[:] = w.sigs2[None]
+    w.sig_sub[:] = w.sig; w.sig_series = pd.Series(w.sig.copy())
+    (w.df, w.df_t), w._alt = w._alt, (w.df, w.df_t)
+
+def _pristine_op(seed, op, refills=0):
+    """the call `op` on a freshly built world (after the caller's own refills of its buffer), executed in a pristine process: no earlier
+    library call of any session can have influenced it (beyond the construction of the world itself)"""
+    w = World(seed); w._bk_full()
+    for _ in range(refills % 2):          # (two refills restore the original samples)
+        _refill(w)
+    return _call(w, op)
+
 def _same(a, b):
     if isinstance(a, pd.DataFrame): return isinstance(b, pd.DataFrame) and list(a.columns) == list(b.columns) and a.equals(b)
     if isinstance(a, (list, tuple)): return isinstance(b, (list, tuple)) and len(a) == len(b) and all(_same(x, y) for x, y in zip(a, b))
@@ -134,7 +168,15 @@ def _same(a, b):
 
 def corpus(ctx):
     return [dict(seed=3, ops=['cf_amp', 'cf_amp', 'burstfeat_amp', 'burstfeat_amp']),      # pre-fix E: fs / f_range / min_n_cycles written into / popped from caller dicts
-            dict(seed=4, ops=['cf2d_alias', 'cf2d_alias', 'edges', 'cf_cycles'])]
+            dict(seed=4, ops=['cf2d_alias', 'cf2d_alias', 'edges', 'cf_cycles']),
+            # directed: the caller refills its signal buffer in place between two identical calls (caches keyed on object identity), and two calls
+            # that differ only in the filter length given in seconds (memoised kernels keyed without it)
+            dict(seed=5, ops=['cf_cycles', 'user_refill', 'cf_cycles', 'burstfeat_cycles']),
+            dict(seed=6, ops=['shape_trough', 'mono', 'user_refill', 'shape_trough', 'mono']),
+            dict(seed=7, ops=['cf_cycles_trough', 'user_refill', 'cf_cycles_trough', 'extrema', 'zerox']),
+            dict(seed=8, ops=['cf2d_dict', 'user_refill', 'cf2d_dict', 'cf3d']),
+            dict(seed=9, ops=['extrema_nsec_a', 'extrema_nsec_b', 'cf_nsec_b', 'cf_nsec_a']),
+            dict(seed=10, ops=['cf_nsec_a', 'cf_nsec_b', 'cf_ncyc5', 'cf_cycles'])]
 
 def generate(ctx):
     rng = ctx.rng
@@ -148,7 +190,11 @@ def evaluate(ctx, cases):
         results = []
         info = {}
         ok = True
+        refills = []
         for i, op in enumerate(c['ops']):
+            refills.append(sum(1 for o in c['ops'][:i] if o == 'user_refill'))
+            if op == 'user_refill':
+                results.append(_call(w, op)); continue
             snap = w.snapshot()
             r = _call(w, op)
             results.append(r)
@@ -158,11 +204,19 @@ def evaluate(ctx, cases):
                 ok = False; info['judge'] = 'call %d (%s) modified the caller-owned object %r' % (i, op, d); break
         if ok:
             for i, op in enumerate(c['ops']):      # history independence: the same call with the same argument objects again
+                if op == 'user_refill' or refills[i] != refills[-1] + (c['ops'][-1] == 'user_refill'): continue     # (the caller changed its buffer since)
                 r2 = _call(w, op)
                 if not _same(results[i], r2):
                     ok = False; info['judge'] = 'repeating call %d (%s) after the rest of the sequence gives a different result' % (i, op); break
-        for op, r in zip(c['ops'], results):
-            if op.endswith('_raises') and not (isinstance(r, str) and r.startswith('raised')): ctx.hist('raised', op + ' did NOT raise')
+        if ok:
+            # no call-history dependence through MODULE state either (memoised kernels, caches keyed on object identity, leaked settings): three
+            # calls of the sequence, chosen by the case's seed, must give what the same call gives in a pristine process on a freshly built world
+            lib = [i for i, o in enumerate(c['ops']) if o != 'user_refill']
+            after = [i for i in lib if refills[i] > 0][:2]          # (calls made after the caller refilled its buffer come first)
+            for i in sorted(set(after + [lib[int(v) % len(lib)] for v in (c['seed'], c['seed'] // 7)][:3 - len(after)])) if lib else []:
+                st, ref = implutil.pristine('props.C15', '_pristine_op', c['seed'], c['ops'][i], refills[i])
+                if st != 'ok' or not _same(results[i], ref):
+                    ok = False; info['judge'] = 'call %d (%s) inside the sequence differs from the same call in a pristine process%s' % (i, c['ops'][i], '' if st == 'ok' else ' (' + str(ref) + ')'); break
         if ok and any(isinstance(r, str) and r.startswith('raised') for r in results):
             info['raised'] = [r for r in results if isinstance(r, str) and r.startswith('raised')][:3]
             ctx.hist('raised', info['raised'][0])
